@@ -29,8 +29,9 @@ COMPONENTS = {
     'stub': ['reader generators feeding parse_script', 'client threads scheduled by the simulator'],
 }
 ASSUMPTIONS = [
-    'continuation breaks are placed only where the canonical text has exactly one space outside string literals and '
-    'bracket variables',
+    'continuation breaks are placed where the canonical text has exactly one space outside string literals and '
+    'bracket variables, and at the zero-width gaps where the grammar allows white space (before a comma, inside '
+    'parentheses, before the colon of an if/elif/while/for header, after a unary operator)',
     'chunks are cut at line boundaries (the property quantifies over those)',
     'pre-emption happens at reader next() calls; the parse phase after the last chunk is atomic',
 ]
